@@ -283,6 +283,19 @@ def run(ctx):
                       fn=ro, construct="max_depth")
         else:
             r.bad("max_depth", "the parallel walker descends without consulting max_depth", fn=ro, construct="max_depth")
+        # ... and a directory at the depth limit is not *read* as far as the visitor can tell: the serial walker (walkdir)
+        # never opens it, so the failure of read_dir must not be reported for it either (diagnostic and exit status)
+        rd = ro.calls_to(W + "::Work::read_dir")
+        errv = [c for c in ro.calls() if (c.func.get("trait") or "").endswith("ParallelVisitor") and c.func.get("name") == "visit" and
+                rd and mentions_call(ebr.operand(c.args[1]), W + "::Work::read_dir")]
+        if md and errv and not guarded(ro, [c.bb for c in errv], md, False):
+            r.ok("max_depth|read-error", "the error of read_dir is reported only below the depth limit", fn=ro)
+        elif errv:
+            r.bad("max_depth|read-error", "Worker::run_one reports the failure of read_dir before it consults max_depth: for an unreadable "
+                  "directory exactly at the depth limit the parallel walker prints a diagnostic (exit status 2) and the serial "
+                  "walker, which never opens it, does not", fn=ro, loc=errv[0].loc, construct="max_depth")
+        else:
+            r.ok("max_depth|read-error", "read_dir failures are not reported by run_one", fn=ro, nontrivial=False)
         sfs = ro.calls_to(W + "::is_same_file_system")
         if sfs and gw:
             s0 = seed_after_call(ro, sfs[0], V("Ok", I(0)))
